@@ -10,7 +10,17 @@ STORE_NOTE = ('Trusted: Coq kernel; extraction (ExtrOcamlBasic only) and the 20-
               'the hand-written model is tied to the code only by the differential correspondence run of every check '
               '(all storage steps, index, free map, sequence number, image hash, results compared after every operation). '
               'Not modelled: mmap/OS behaviour, encoding/json (options record compared as bytes), LSH index side effects.')
+T_STORE = 'Coq proof (refinement of the tile model of the span file to a finite map, by induction over histories) + differential correspondence of the extracted model with the Go code'
 CLAIMS = {
+    'C01': {'engine': 'store', 'technique': T_STORE,
+            'text': 'Theorems C01_step/C01_histories/C01_no_panic/C01_ids/C01_count/C01_new_collection (axiom-free): for every history of AddDocument, UpdateDocument, removal, GetDocument and reopen on the Coq model of collection.go/spanfile.go/freemap.go, outputs equal those of a finite map id -> (metadata, stored vector bytes); ids ascending and exactly the live ones; count their number; no panic. Byte-level round trips (7-bit code, span image incl. padding and CRC, decimal ids) are proved for all sizes below the 32-bit format limits. The model is run against the implementation on generated histories (all quantizations, ids up to 2^64-1, payload sizes around every 7-code, padding and growth boundary) and compared after every operation on storage steps, index, free map, sequence number, image hash and results; an independent Python map specification judges the implementation outputs.',
+            'note': STORE_NOTE},
+    'C02': {'engine': 'store', 'technique': T_STORE,
+            'text': 'Theorems C02_scan/C02_reopen/C02_contents/C02_histories (axiom-free): scanning the image of any state reachable by clean operation returns exactly its tiles, so opening the file again (writable or read-only) yields the same index, free map and records, and histories with reopen inserted anywhere behave like the specification in which reopen is the identity. The override of passed options by the stored options record goes through encoding/json and is checked on the implementation (GetOptions after every reopen with conflicting options), not proved.',
+            'note': STORE_NOTE},
+    'C09': {'engine': 'store', 'technique': T_STORE,
+            'text': 'Theorems C09_chain/C09_growth/C09_grows_only_when_nothing_fits/C09_remove_in_place (axiom-free): after every history the file is the concatenation of well-formed active spans (valid CRC, < 15 bytes padding) and FREE spans, one active span per live record, walkable by the scan; a write grows the file only if no contiguous run of free tiles can hold the record. An independent Python walker checks the same grammar, the equality free map = FREE spans + tail, and the growth rule on the real file image after every operation.',
+            'note': STORE_NOTE},
     'C16': {'engine': 'store', 'technique': 'Coq proof (induction over the listing loop) + differential correspondence with the Go code',
             'text': 'Theorems C16_page/C16_order/C16_tiling: the listing loop of Search, modelled in Coq, returns exactly slice [off, off+lim) of the filtered listing for all states, filters, offsets and limits (unbounded induction, axiom-free). The model is run against the implementation on generated histories with exhaustive (offset, limit) grids and all mismatches or oracle failures are reported.',
             'note': STORE_NOTE},
